@@ -12,6 +12,20 @@ SPEC = os.path.join(VERIF, "spec")
 REPLAYS = os.environ.get("VERIF_REPLAYS_DIR") or os.path.join(VERIF, "replays")
 EVIDENCE = os.environ.get("VERIF_EVIDENCE_DIR") or os.path.join(VERIF, "evidence")   # seedtest redirects it
 GUARD = "azure_guestproxyagent_verif"
+# one scratch area per top-level invocation (inherited by worker processes), so that checks running at the same time --
+# two properties sharing a driver, or the quick and thorough tier of one property -- never share run directories or traces
+_TOP = "VERIF_RUNID" not in os.environ
+RUNID = os.environ.setdefault("VERIF_RUNID", "r%d" % os.getpid())
+RUNDIR = os.path.join(BUILD, "run", RUNID)
+TRACES = os.path.join(BUILD, "traces", RUNID)
+
+
+def cleanup_scratch():
+    """remove this invocation's scratch (called by bin/check after a passing run)"""
+    import shutil
+    if _TOP:
+        shutil.rmtree(RUNDIR, ignore_errors=True)
+        shutil.rmtree(TRACES, ignore_errors=True)
 
 
 class ToolError(Exception):
